@@ -42,6 +42,8 @@ static int dnsref_name_nptr; /* side result: pointers followed by the last dnsre
 static int dnsref_name_fwdptr; /* side result, cumulative: pointers whose target is not strictly before
                                 * the pointer itself (a compression pointer must refer to a PRIOR
                                 * occurrence, RFC 1035 4.1.4) */
+static int dnsref_name_odd;    /* side result, cumulative: label octets '.' or NUL met -- such labels have no
+                                * unambiguous dotted C-string form (evdns's presentation does not escape) */
 static int dnsref_name(const uint8_t *msg, int len, int start, char *out, int out_cap,
                        int *next, int *text_len, int *wire_len)
 {
@@ -76,6 +78,7 @@ static int dnsref_name(const uint8_t *msg, int len, int start, char *out, int ou
 		if (out && n + c >= out_cap) return DNSREF_TOOLONG;
 		for (k = 0; k < c; k++) {
 			if (out) out[n] = (char)msg[pos + 1 + k];
+			if (msg[pos + 1 + k] == '.' || msg[pos + 1 + k] == 0) dnsref_name_odd++;
 			n++;
 		}
 		wl += 1 + c;
